@@ -45,7 +45,7 @@ def strategy(draw):
     for _ in range(naz):
         nwin = draw(st.integers(2, 6)) if kind == "azimuthal" else draw(st.integers(3, 9))
         groups.append(dict(nwin=nwin, seed=draw(gen.seeds32), centre=draw(gen.floats(0.3, 0.7)), sigma=draw(gen.log_floats(0.02, 0.1)),
-                           outlier_frac=0.0, outlier_sigma=0.1, bimodal=0.0, bimodal_frac=0.3, second_bump=False))
+                           outlier_frac=0.0, outlier_sigma=0.1, bimodal=0.0, bimodal_frac=0.3, second_bump=draw(st.booleans())))
         m = [draw(st.sampled_from([True, True, False])) for _ in range(nwin)]
         if sum(m) < (2 if kind != "azimuthal" else 1):
             m = [True] * nwin
@@ -64,7 +64,8 @@ def strategy(draw):
                                              "plot_peak_mean_curve", "plot_peak_individual_valid_curves", "plot_peak_individual_invalid_curves")}
     return dict(kind=kind, func=func, f=f, groups=groups, masks=masks, pmasks=pmasks, azimuths=azs, opts=opts,
                 dist_mc=draw(st.sampled_from(["lognormal", "normal"])), dist_fn=draw(st.sampled_from(["lognormal", "normal"])),
-                normalize=draw(st.booleans()), by_az=draw(st.booleans()), range=draw(st.sampled_from([None, None, "bounded"])))
+                normalize=draw(st.booleans()), by_az=draw(st.booleans()), range=draw(st.sampled_from([None, None, "bounded"])),
+                kw=draw(st.sampled_from([None, None, {"height-cap": 0.6}, {"height-cap": 0.85}, {"prominence": 1.5}, {"width": 3}])))
 
 
 def _build(hv, case):
@@ -76,21 +77,71 @@ def _build(hv, case):
         obj = hv.HvsrDiffuseField(f, groups[0][0], meta={"site": "x"})
     else:
         obj = hv.HvsrAzimuthal([hv.HvsrTraditional(f, A) for A in groups], case["azimuths"], meta={"site": "x"})
-    if case["range"] == "bounded":
-        obj.update_peaks_bounded((float(f[2]), float(f[-3])))
+    kw = case.get("kw")
+    if kw and "height-cap" in kw:
+        top = float(np.max([np.max(g) for g in groups])) if case["kind"] != "diffuse_field" else float(np.max(groups[0][0]))
+        kw = {"height": [None, kw["height-cap"] * top]}      # scipy: (min, max) admissible peak height
+    if case["range"] == "bounded" or kw:
+        rng = (float(f[2]), float(f[-3])) if case["range"] == "bounded" else (None, None)
+        obj.update_peaks_bounded(rng, kw)
     members = obj.hvsrs if case["kind"] == "azimuthal" else ([obj] if case["kind"] == "traditional" else [])
-    for t, m, pm in zip(members, case["masks"], case["pmasks"]):
-        has = ~np.isnan(t._main_peak_frq)
-        if case["kind"] == "azimuthal":
-            # the library keeps both masks equal on azimuthal members (a window without a peak is rejected)
-            both = np.array(m, dtype=bool) & has
-            if not both.any():
-                both = has.copy()
-            t.valid_window_boolean_mask = both.copy()
-            t.valid_peak_boolean_mask = both.copy()
-        else:
-            t.valid_window_boolean_mask = np.array(m, dtype=bool)
-            t.valid_peak_boolean_mask = np.array(pm, dtype=bool) & has
+
+    def apply_masks(all_with_peak=False):
+        for t, m, pm in zip(members, case["masks"], case["pmasks"]):
+            has = ~np.isnan(t._main_peak_frq)
+            if all_with_peak:
+                t.valid_window_boolean_mask = has.copy()
+                t.valid_peak_boolean_mask = has.copy()
+            elif case["kind"] == "azimuthal":
+                # the library keeps both masks equal on azimuthal members (a window without a peak is rejected)
+                both = np.array(m, dtype=bool) & has
+                t.valid_window_boolean_mask = both.copy()
+                t.valid_peak_boolean_mask = both.copy()
+            else:
+                t.valid_window_boolean_mask = np.array(m, dtype=bool)
+                t.valid_peak_boolean_mask = np.array(pm, dtype=bool) & has
+
+    def in_domain():
+        """>= 2 accepted windows and peaks (every azimuth >= 1) and a mean-curve peak for both distributions."""
+        if not members:
+            return True
+        if any(int(np.sum(t.valid_window_boolean_mask)) < 1 or int(np.sum(t.valid_peak_boolean_mask)) < 1 for t in members):
+            return False
+        if sum(int(np.sum(t.valid_window_boolean_mask)) for t in members) < 2 or sum(int(np.sum(t.valid_peak_boolean_mask)) for t in members) < 2:
+            return False
+        if case["kind"] == "traditional" and (int(np.sum(obj.valid_window_boolean_mask)) < 2 or int(np.sum(obj.valid_peak_boolean_mask)) < 2):
+            return False
+        try:
+            for d in ("lognormal", "normal"):
+                obj.mean_curve_peak(d)
+                if not np.all(np.isfinite(obj.std_curve(d))):
+                    return False
+            if case["kind"] == "azimuthal":
+                for d in ("lognormal", "normal"):
+                    obj.mean_curve_peak_by_azimuth(d)          # the contour plots mark the peak of every azimuth's mean curve
+            if case["func"] == "pre_post":
+                # the "before" panel shows every window as accepted: that state must have a mean-curve peak too
+                keep = (obj.valid_window_boolean_mask.copy(), obj.valid_peak_boolean_mask.copy())
+                try:
+                    obj.valid_window_boolean_mask = np.ones_like(keep[0])
+                    obj.valid_peak_boolean_mask = np.ones_like(keep[1])
+                    for d in ("lognormal", "normal"):
+                        obj.mean_curve_peak(d)
+                finally:
+                    obj.valid_window_boolean_mask, obj.valid_peak_boolean_mask = keep
+        except (ValueError, ZeroDivisionError):
+            return False
+        return True
+
+    apply_masks()
+    if not in_domain():
+        apply_masks(all_with_peak=True)
+    if not in_domain():
+        # the drawn find_peaks options / range leave too few peaks: fall back to the plain full-range state
+        obj.update_peaks_bounded((None, None), None)
+        apply_masks()
+        if not in_domain():
+            apply_masks(all_with_peak=True)
     return obj, members, f
 
 
@@ -144,7 +195,10 @@ def _check_single_panel(hv, pp, ax, obj, members, f, case, opts, what="single pa
     dia = [l for l in lines if l["marker"] == "D"]
     if opts["plot_peak_mean_curve"]:
         require(len(dia) >= 1, f"{what}: no mean-curve peak marker")
-        pf, pa = obj.mean_curve_peak(case["dist_mc"]) if kind != "diffuse_field" else obj.mean_curve_peak(case["dist_mc"])
+        try:
+            pf, pa = obj.mean_curve_peak(case["dist_mc"])
+        except ValueError:
+            pf = pa = None
         for l in dia:
             require(len(l["x"]) == 1 and l["x"][0] == float(pf) and l["y"][0] == float(pa), f"{what}: the diamond marker ({l['x']}, {l['y']}) is not mean_curve_peak ({pf}, {pa})")
     else:
@@ -222,7 +276,7 @@ def check_case(case):
             _check_single_panel(hv, pp, axs[3], obj, members, f, case, after, what="pre/post figure, 'after' panel")
             # the 'before' panel shows every window as accepted: statistics of an all-accepted twin
             twin = hv.HvsrTraditional(f, members[0].amplitude)
-            twin.update_peaks_bounded(obj._search_range_in_hz)
+            twin.update_peaks_bounded(obj._search_range_in_hz, dict(obj._find_peaks_kwargs) if obj._find_peaks_kwargs else None)
             has = ~np.isnan(twin._main_peak_frq)
             twin.valid_window_boolean_mask = np.ones(twin.n_curves, dtype=bool)
             twin.valid_peak_boolean_mask = np.ones(twin.n_curves, dtype=bool)
